@@ -7,10 +7,11 @@
 (*   SingleDispatcher = FALSE : ProtocolDispatcher.start() creates another dispatcher thread on  *)
 (*                              every connection while the old one is never stopped              *)
 (* The TRUE/TRUE configuration is the code after the fix: commits; the other two are regression  *)
-(* witnesses that TLC has to refute.                                                             *)
+(* witnesses that TLC has to refute.  LateReplies = TRUE lets the peer answer requests whose      *)
+(* caller already gave up (multiplies the state space; small NC in the quick tier).               *)
 EXTENDS Naturals, Sequences, FiniteSets, TLC
 
-CONSTANTS AtomicCounter, SingleDispatcher, NC, NU, M, MaxConn
+CONSTANTS AtomicCounter, SingleDispatcher, LateReplies, NC, NU, M, MaxConn
 
 Callers == 1..NC
 Disp == 1..2
@@ -28,15 +29,16 @@ VARIABLES ctr,      \* Protocol._system_counter (mod M)
           applog,   \* ids handed to the application, in order
           busy,     \* dispatchers currently inside the application hand-over
           nextU,    \* next unsolicited message id the peer will send
-          conn      \* number of connections so far
+          conn,     \* number of connections so far
+          late      \* callers whose request timed out and was answered afterwards all the same
 
-vars == <<ctr, pc, sys, got, reg, rq, wire, dispq, alive, dpc, dmsg, applog, busy, nextU, conn>>
+vars == <<ctr, pc, sys, got, reg, rq, wire, dispq, alive, dpc, dmsg, applog, busy, nextU, conn, late>>
 
 Init == /\ ctr \in 0..(M-1)
         /\ pc = [c \in Callers |-> "idle"] /\ sys = [c \in Callers |-> 0] /\ got = [c \in Callers |-> 0]
         /\ reg = {} /\ rq = [s \in 0..(M-1) |-> <<>>] /\ wire = {} /\ dispq = <<>>
         /\ alive = {1} /\ dpc = [d \in Disp |-> "idle"] /\ dmsg = [d \in Disp |-> [k |-> "none"]]
-        /\ applog = <<>> /\ busy = {} /\ nextU = 1 /\ conn = 1
+        /\ applog = <<>> /\ busy = {} /\ nextU = 1 /\ conn = 1 /\ late = {}
 
 (* ---- caller: system_id = self.get_next_system_counter()                                      *)
 CallInc(c) == /\ pc[c] = "idle"
@@ -44,50 +46,56 @@ CallInc(c) == /\ pc[c] = "idle"
               /\ IF AtomicCounter
                    THEN /\ sys' = [sys EXCEPT ![c] = (ctr + 1) % M] /\ pc' = [pc EXCEPT ![c] = "reg"]
                    ELSE /\ pc' = [pc EXCEPT ![c] = "read"] /\ UNCHANGED sys
-              /\ UNCHANGED <<got, reg, rq, wire, dispq, alive, dpc, dmsg, applog, busy, nextU, conn>>
+              /\ UNCHANGED <<got, reg, rq, wire, dispq, alive, dpc, dmsg, applog, busy, nextU, conn, late>>
 CallRead(c) == /\ pc[c] = "read"                         \* return self._system_counter
                /\ sys' = [sys EXCEPT ![c] = ctr] /\ pc' = [pc EXCEPT ![c] = "reg"]
-               /\ UNCHANGED <<ctr, got, reg, rq, wire, dispq, alive, dpc, dmsg, applog, busy, nextU, conn>>
+               /\ UNCHANGED <<ctr, got, reg, rq, wire, dispq, alive, dpc, dmsg, applog, busy, nextU, conn, late>>
 CallRegister(c) == /\ pc[c] = "reg"                      \* self._response_queues[system_id] = Queue()
                    /\ reg' = reg \cup {sys[c]} /\ rq' = [rq EXCEPT ![sys[c]] = <<>>]
                    /\ pc' = [pc EXCEPT ![c] = "send"]
-                   /\ UNCHANGED <<ctr, sys, got, wire, dispq, alive, dpc, dmsg, applog, busy, nextU, conn>>
+                   /\ UNCHANGED <<ctr, sys, got, wire, dispq, alive, dpc, dmsg, applog, busy, nextU, conn, late>>
 CallSend(c) == /\ pc[c] = "send"                         \* send_message (block written by the receiver thread)
                /\ wire' = wire \cup {[sys |-> sys[c], c |-> c]}
                /\ pc' = [pc EXCEPT ![c] = "wait"]
-               /\ UNCHANGED <<ctr, sys, got, reg, rq, dispq, alive, dpc, dmsg, applog, busy, nextU, conn>>
+               /\ UNCHANGED <<ctr, sys, got, reg, rq, dispq, alive, dpc, dmsg, applog, busy, nextU, conn, late>>
 CallGot(c) == /\ pc[c] = "wait" /\ rq[sys[c]] # <<>>     \* response_queue.get(); _remove_queue
               /\ got' = [got EXCEPT ![c] = Head(rq[sys[c]])]
               /\ rq' = [rq EXCEPT ![sys[c]] = Tail(@)]
               /\ reg' = reg \ {sys[c]}
               /\ pc' = [pc EXCEPT ![c] = "done"]
-              /\ UNCHANGED <<ctr, sys, wire, dispq, alive, dpc, dmsg, applog, busy, nextU, conn>>
+              /\ UNCHANGED <<ctr, sys, wire, dispq, alive, dpc, dmsg, applog, busy, nextU, conn, late>>
 CallTimeout(c) == /\ pc[c] = "wait" /\ rq[sys[c]] = <<>>  \* T3 expired: queue.Empty; _remove_queue
                   /\ reg' = reg \ {sys[c]}
                   /\ pc' = [pc EXCEPT ![c] = "done"]
                   /\ wire' = {w \in wire : w.c # c}        \* the peer will not answer it any more (late replies: TxMon)
-                  /\ UNCHANGED <<ctr, sys, got, rq, dispq, alive, dpc, dmsg, applog, busy, nextU, conn>>
+                  /\ UNCHANGED <<ctr, sys, got, rq, dispq, alive, dpc, dmsg, applog, busy, nextU, conn, late>>
 
 (* ---- peer                                                                                    *)
 PeerReply(w) == /\ w \in wire
                 /\ wire' = wire \ {w}
                 /\ dispq' = Append(dispq, [k |-> "reply", sys |-> w.sys, for |-> w.c])
-                /\ UNCHANGED <<ctr, pc, sys, got, reg, rq, alive, dpc, dmsg, applog, busy, nextU, conn>>
+                /\ UNCHANGED <<ctr, pc, sys, got, reg, rq, alive, dpc, dmsg, applog, busy, nextU, conn, late>>
+(* an answer to a request whose caller gave up (T3): for the transaction layer it is an inbound message nobody  *)
+(* waits for -- unless the system bytes are in use again                                                    *)
+PeerLateReply(s, c) == /\ pc[c] = "done" /\ got[c] = 0 /\ sys[c] = s /\ c \notin late
+                       /\ late' = late \cup {c}
+                       /\ dispq' = Append(dispq, [k |-> "reply", sys |-> s, for |-> c])
+                       /\ UNCHANGED <<ctr, pc, sys, got, reg, rq, wire, alive, dpc, dmsg, applog, busy, nextU, conn>>
 PeerUnsol == /\ nextU <= NU
              /\ dispq' = Append(dispq, [k |-> "unsol", id |-> nextU])
              /\ nextU' = nextU + 1
-             /\ UNCHANGED <<ctr, pc, sys, got, reg, rq, wire, alive, dpc, dmsg, applog, busy, conn>>
+             /\ UNCHANGED <<ctr, pc, sys, got, reg, rq, wire, alive, dpc, dmsg, applog, busy, conn, late>>
 Reconnect == /\ conn < MaxConn
              /\ conn' = conn + 1
              /\ wire' = {}                                  \* requests in flight are lost with the link
              /\ alive' = IF SingleDispatcher THEN alive ELSE alive \cup {conn + 1}
-             /\ UNCHANGED <<ctr, pc, sys, got, reg, rq, dispq, dpc, dmsg, applog, busy, nextU>>
+             /\ UNCHANGED <<ctr, pc, sys, got, reg, rq, dispq, dpc, dmsg, applog, busy, nextU, late>>
 
 (* ---- dispatcher thread(s)                                                                     *)
 DtTake(d) == /\ d \in alive /\ dpc[d] = "idle" /\ dispq # <<>>
              /\ dmsg' = [dmsg EXCEPT ![d] = Head(dispq)] /\ dispq' = Tail(dispq)
              /\ dpc' = [dpc EXCEPT ![d] = "took"]
-             /\ UNCHANGED <<ctr, pc, sys, got, reg, rq, wire, alive, applog, busy, nextU, conn>>
+             /\ UNCHANGED <<ctr, pc, sys, got, reg, rq, wire, alive, applog, busy, nextU, conn, late>>
 DtRoute(d) == /\ dpc[d] = "took"
               /\ IF dmsg[d].k = "reply" /\ dmsg[d].sys \in reg
                    THEN /\ rq' = [rq EXCEPT ![dmsg[d].sys] = Append(@, dmsg[d].for)]
@@ -96,12 +104,12 @@ DtRoute(d) == /\ dpc[d] = "took"
                    ELSE IF dmsg[d].k = "unsol"
                           THEN /\ applog' = Append(applog, dmsg[d].id) /\ busy' = busy \cup {d}
                                /\ dpc' = [dpc EXCEPT ![d] = "deliver"] /\ UNCHANGED rq
-                          ELSE \* reply nobody waits for: handed to the application as well (not tracked here)
-                               /\ dpc' = [dpc EXCEPT ![d] = "idle"] /\ UNCHANGED <<rq, applog, busy>>
-              /\ UNCHANGED <<ctr, pc, sys, got, reg, wire, dispq, alive, dmsg, nextU, conn>>
+                          ELSE \* reply nobody waits for: handed to the application as well (occupies the dispatcher)
+                               /\ busy' = busy \cup {d} /\ dpc' = [dpc EXCEPT ![d] = "deliver"] /\ UNCHANGED <<rq, applog>>
+              /\ UNCHANGED <<ctr, pc, sys, got, reg, wire, dispq, alive, dmsg, nextU, conn, late>>
 DtDeliverEnd(d) == /\ dpc[d] = "deliver"
                    /\ busy' = busy \ {d} /\ dpc' = [dpc EXCEPT ![d] = "idle"]
-                   /\ UNCHANGED <<ctr, pc, sys, got, reg, rq, wire, dispq, alive, dmsg, applog, nextU, conn>>
+                   /\ UNCHANGED <<ctr, pc, sys, got, reg, rq, wire, dispq, alive, dmsg, applog, nextU, conn, late>>
 
 DoCallInc == \E c \in Callers : CallInc(c)
 DoCallRead == \E c \in Callers : CallRead(c)
@@ -110,11 +118,12 @@ DoCallSend == \E c \in Callers : CallSend(c)
 DoCallGot == \E c \in Callers : CallGot(c)
 DoCallTimeout == \E c \in Callers : CallTimeout(c)
 DoPeerReply == \E w \in wire : PeerReply(w)
+DoPeerLateReply == LateReplies /\ \E c \in Callers : PeerLateReply(sys[c], c)
 DoDtTake == \E d \in Disp : DtTake(d)
 DoDtRoute == \E d \in Disp : DtRoute(d)
 DoDtDeliverEnd == \E d \in Disp : DtDeliverEnd(d)
 
-Next == DoCallInc \/ DoCallRead \/ DoCallRegister \/ DoCallSend \/ DoCallGot \/ DoCallTimeout \/ DoPeerReply
+Next == DoCallInc \/ DoCallRead \/ DoCallRegister \/ DoCallSend \/ DoCallGot \/ DoCallTimeout \/ DoPeerReply \/ DoPeerLateReply
         \/ PeerUnsol \/ Reconnect \/ DoDtTake \/ DoDtRoute \/ DoDtDeliverEnd
 
 Spec == Init /\ [][Next]_vars
